@@ -87,7 +87,7 @@ def pick_bytes(rng, size_class=None):
     return "concat(%s)" % ",".join(names[:4]), b"\n".join(parts)
 
 
-def perturb_bytes(rng, data):
+def perturb_bytes(rng, data, noise=0.25):
     """Line-end / encoding variants that exercise the read path.  Returns (tags, bytes)."""
     tags = []
     r = rng.random()
@@ -105,7 +105,28 @@ def perturb_bytes(rng, data):
         lines.insert(i, b"-- caf\xe9 \xb5s")
         data = b"\n".join(lines)
         tags.append("latin1")
+    r = rng.random()
+    if r < noise:
+        data = layout_noise(rng, data)
+        tags.append("noise")
     return tags, data
+
+
+def layout_noise(rng, data, density=0.15):
+    """Plant layout that only whitespace rules care about: trailing blanks/tabs, whitespace-only
+    lines, doubled blank lines.  The token sequence of the design is unchanged."""
+    nl = b"\r\n" if b"\r\n" in data else b"\n"
+    lines = data.split(nl)
+    out = []
+    for ln in lines:
+        r = rng.random()
+        if r < density and ln.strip() and not ln.rstrip().endswith(b"\\"):
+            ln = ln + rng.choice([b" ", b"   ", b"\t", b" \t "])
+        out.append(ln)
+        r = rng.random()
+        if r < density / 3:
+            out.append(rng.choice([b"  ", b"\t", b"", b"    "]))
+    return nl.join(out)
 
 
 def sb_entry(path, data, mode="644"):
